@@ -779,7 +779,7 @@ def g_bytes_left(chk, P, D, sk):
             if all(F.ex[F.strip_casts(a)]['k'] == 'int' for a in args):
                 continue
             cs = [(canon(P, F, c, sk, depth=1), pol) for c, pol in common.controlling_conditions(F, e)]
-            ok = any((not pol) and '.storage-' in s and '>' in s for s, pol in cs)
+            ok = any((not pol) and '.storage-' in s.replace('<.storage>', '.storage') and '>' in s for s, pol in cs)
             size = F.s(e)
             if ok:
                 k += 1
